@@ -175,6 +175,9 @@ def dense_hamiltonian(model, n, c):
             h += c["zz"][i] * embed({i: PAULI["Z"], i + 1: PAULI["Z"]}, n)
         for i in range(n):
             h += c["x"][i] * embed({i: PAULI["X"]}, n) + c["z"][i] * embed({i: PAULI["Z"]}, n)
+            h += c.get("y", [0.0] * 8)[i] * embed({i: PAULI["Y"]}, n)
+        for i in range(n - 1):
+            h += c.get("xy", [0.0] * 8)[i] * embed({i: PAULI["X"], i + 1: PAULI["Y"]}, n)
         return h
     if model == "ising":
         for i in range(n - 1):
@@ -194,6 +197,8 @@ def make_operator(model, n, c):
     if model == "pauli":
         terms = [(c["zz"][i], f"Z{i} Z{i + 1}") for i in range(n - 1)]
         terms += [(c["x"][i], f"X{i}") for i in range(n)] + [(c["z"][i], f"Z{i}") for i in range(n)]
+        terms += [(c["y"][i], f"Y{i}") for i in range(n)] if "y" in c else []
+        terms += [(c["xy"][i], f"X{i} Y{i + 1}") for i in range(n - 1)] if "xy" in c else []
         op = MPO()
         op.from_pauli_sum(terms=terms, length=n)
         return op
@@ -623,7 +628,9 @@ def run_reprep_mps(inp):
 def couplings(r, model):
     if model == "pauli":
         return {"zz": [round(r.uniform(0.3, 1.4), 3) for _ in range(8)], "x": [round(r.uniform(0.2, 1.2), 3) for _ in range(8)],
-                "z": [round(r.uniform(-0.8, 0.8), 3) for _ in range(8)]}
+                "z": [round(r.uniform(-0.8, 0.8), 3) for _ in range(8)],
+                # a Y field and a directed X_i Y_{i+1} coupling: the Hamiltonian has imaginary entries (H differs from its transpose)
+                "y": [round(r.uniform(-0.7, 0.7), 3) for _ in range(8)], "xy": [round(r.uniform(-0.6, 0.6), 3) for _ in range(8)]}
     if model == "ising":
         return {"J": round(r.uniform(0.3, 1.5), 3), "g": round(r.uniform(0.2, 1.2), 3)}
     return {"Jx": round(r.uniform(0.3, 1.2), 3), "Jy": round(r.uniform(0.3, 1.2), 3), "Jz": round(r.uniform(0.3, 1.2), 3),
